@@ -81,6 +81,18 @@ func (c *Conversation) verifySMP3(s2 *smp2State, msg smp3Message) error {
 		return newOtrError("Ra is an invalid group element")
 	}
 
+	if !isExponent(msg.d5) {
+		return newOtrError("D5 is an invalid exponent")
+	}
+
+	if !isExponent(msg.d6) {
+		return newOtrError("D6 is an invalid exponent")
+	}
+
+	if !isExponent(msg.d7) {
+		return newOtrError("D7 is an invalid exponent")
+	}
+
 	if !verifyZKP3(msg.cp, s2.g2, s2.g3, msg.d5, msg.d6, msg.pa, msg.qa, 6, c.version) {
 		return newOtrError("cP is not a valid zero knowledge proof")
 	}
